@@ -190,19 +190,34 @@ SPEC_WALK = '''
 def prs_ok(F, isp, nx, rem):
     """Ghost layout of a LIS file by file position (no TIF markers, no padding): isp[x] == 1 marks the start of a physical
     record, nx[x] is where it ends (= start of the next one or the end of the file), rem[x] is the number of logical data
-    bytes from the start of this record's data to the end of its logical record."""
+    bytes from the start of this record's data to the end of its logical record.  The clauses chain from a record to the
+    next one, so as solver patterns isp[x] / nx[x] / rem[x] would instantiate without end: they carry the inert pattern
+    mark(isp[x]): the solver never instantiates them, pyvc's one-round pre-instantiation does, at exactly the positions t for
+    which isp[t] occurs in the VC (the cursor before and after the step); for that to be enough the successor clause states
+    the well-formedness of the next header itself."""
     return (len(isp) == len(F) + 1 and len(nx) == len(F) + 1 and len(rem) == len(F) + 1
-            and forall(0, len(F), lambda x: implies(isp[x] == 1,
-                       x + 4 <= len(F) and be16(F, x) == nx[x] - x and nx[x] <= len(F)
-                       and not bitset(be16(F, x + 2), 14) and not bitset(be16(F, x + 2), 13)
-                       and ld_len(be16(F, x), be16(F, x + 2)) >= 0
-                       and rem[x] >= ld_len(be16(F, x), be16(F, x + 2))), trigger=lambda x: [isp[x]])
+            and forall(0, len(F), lambda x: implies(isp[x] == 1, hdr_ok(F, x, nx, rem)), trigger=lambda x: [mark(isp[x])])
             # a record with the successor bit is followed by the next record of the same logical record
             and forall(0, len(F), lambda x: implies(isp[x] == 1 and bitset(be16(F, x + 2), 0),
-                       nx[x] + 4 <= len(F) and isp[nx[x]] == 1
-                       and rem[x] == ld_len(be16(F, x), be16(F, x + 2)) + rem[nx[x]]), trigger=lambda x: [nx[x]])
+                       nx[x] + 4 <= len(F) and isp[nx[x]] == 1 and hdr_ok(F, nx[x], nx, rem)
+                       and rem[x] == ld_len(be16(F, x), be16(F, x + 2)) + rem[nx[x]]), trigger=lambda x: [mark(isp[x])])
             and forall(0, len(F), lambda x: implies(isp[x] == 1 and not bitset(be16(F, x + 2), 0),
-                       rem[x] == ld_len(be16(F, x), be16(F, x + 2))), trigger=lambda x: [rem[x]]))
+                       rem[x] == ld_len(be16(F, x), be16(F, x + 2))), trigger=lambda x: [mark(isp[x])]))
+
+def hdr_ok(F, x, nx, rem):
+    """a well-formed physical record header at x: length field = distance to the end of the record, type bit and the
+    undefined checksum bit clear, a non-negative amount of logical data"""
+    return (x + 4 <= len(F) and be16(F, x) == nx[x] - x and nx[x] <= len(F)
+            and not bitset(be16(F, x + 2), 14) and not bitset(be16(F, x + 2), 13)
+            and ld_len(be16(F, x), be16(F, x + 2)) >= 0 and rem[x] >= ld_len(be16(F, x), be16(F, x + 2)))
+
+def lre_ok(F, isp, nx, rem, lre):
+    """lre[x] is where the logical record ends that the physical record at x belongs to (the end of its last physical record);
+    the physical records tile the file: after a logical record comes another physical record or fewer than four bytes."""
+    return (len(lre) == len(F) + 1
+            and forall(0, len(F), lambda x: implies(isp[x] == 1 and bitset(be16(F, x + 2), 0), lre[x] == lre[nx[x]]), trigger=lambda x: [mark(isp[x])])
+            and forall(0, len(F), lambda x: implies(isp[x] == 1 and not bitset(be16(F, x + 2), 0),
+                       lre[x] == nx[x] and (len(F) - nx[x] < 4 or (isp[nx[x]] == 1 and hdr_ok(F, nx[x], nx, rem)))), trigger=lambda x: [mark(isp[x])]))
 
 def cur_in(self, F, isp, nx):
     """the reader stands inside the physical record that starts at self.startPrPos, header read"""
@@ -323,20 +338,59 @@ def register_reader_walk(reg):
                      else 'not is_none(result) and len(result) == %s' % K,
                      '%s == old(%s) - %s' % (AVAIL, AVAIL, K),
                      'self.startOfLr == old(self.startOfLr)', 'self._ldTell == old(self._ldTell) + %s' % K],
-            canaries=['self.startPrPos == old(self.startPrPos)', 'self.startPrPos != old(self.startPrPos)'], crosscheck=False, timeout=40)
+            canaries=['self.startPrPos == old(self.startPrPos)', 'self.startPrPos != old(self.startPrPos)'], crosscheck=False, timeout=15)
         # the layout clauses chain from a record to the next: plain e-matching can run to its time limit on them, MBQI is quick
         c_.solver_order = ['z3-mbqi-short', 'z3-ematch', 'z3-default', 'z3-seed1']
         reg.add(c_, callable_=False)
     reg.add(Contract(PR, 'PhysRecRead._readOrSkipPreamble', inline=True))
     reg.add(Contract(PR, 'PhysRecRead._hasSuccessor', inline=True))
     reg.add(Contract(PR, 'PhysRecRead._isAttrBitSet', inline=True))
-    # __readOrSkip is executed from its real body inside the two callers; its sized loop is cut at this invariant
+    # __readOrSkip is executed from its real body inside its callers; its two loops are cut at these invariants (in a caller
+    # with theSize >= 0 the first loop is unreachable, with theSize < 0 the second one)
+    DONE = '(self._ldTell - old(self._ldTell))'
     reg.add(Contract(PR, 'PhysRecRead.__readOrSkip', inline=True, loops=[
-        Loop('while 1', invariants=['False']),          # the read-everything branch (theSize < 0) is not under this contract
+        Loop('while 1', invariants=[
+            CUR, 'self._ldTell >= old(self._ldTell)', '%s + %s == old(%s)' % (DONE, AVAIL, AVAIL),
+            'self.startOfLr == old(self.startOfLr)', 'lre[self.startPrPos] == old(lre[self.startPrPos])',
+            'implies(is_int(retVal), retVal == %s)' % DONE, 'implies(not is_int(retVal), len(retVal) == %s)' % DONE]),
         Loop('while bytesRead < theSize', invariants=[
             CUR, '0 <= bytesRead', 'bytesRead <= theSize', 'bytesRead + %s == old(%s)' % (AVAIL, AVAIL),
             'self.startOfLr == old(self.startOfLr)', 'self._ldTell == old(self._ldTell) + bytesRead',
             'implies(is_int(retVal), retVal == bytesRead)', 'implies(not is_int(retVal), len(retVal) == bytesRead)'])]))
+    # ---- read / skip everything that is left of the logical record (theSize < 0)
+    G2 = dict(G, lre=KView(Int))
+    LRE = 'lre_ok(%s, isp, nx, rem, lre)' % D
+    for fn in ('PhysRecRead.readLrBytes', 'PhysRecRead.skipLrBytes'):
+        params = {'self': RD, 'theSize': Int}
+        if fn.endswith('readLrBytes'):
+            params['theLd'] = NoneK
+        c_ = Contract(
+            PR, fn, params, ghost=G2, name=fn + '[rest]',
+            requires=[LAY, LRE, CUR, 'theSize < 0', '0 <= self._ldTell', 'self.ldLen > self._ldIndex or bitset(self.prAttr, 0)'],
+            modifies=WALKMOD, returns=(KOpt(Bytes) if fn.endswith('readLrBytes') else Int),
+            ensures=['result == old(%s)' % AVAIL if fn.endswith('skipLrBytes') else 'not is_none(result) and len(result) == old(%s)' % AVAIL,
+                     # all the logical data and the trailer of the last physical record are consumed: the stream stands at the end
+                     # of the logical record, the next thing to read is a header
+                     '%s == old(lre[self.startPrPos])' % POS, 'self._mustReadHead', 'not self.isEOF',
+                     'isp[self.startPrPos] == 1 and self.prAttr == be16(%s, self.startPrPos + 2) and not bitset(self.prAttr, 0)' % D,
+                     'self.startOfLr == old(self.startOfLr)', 'self._ldTell == old(self._ldTell) + old(%s)' % AVAIL],
+            canaries=['self.startPrPos == old(self.startPrPos)', 'self.startPrPos != old(self.startPrPos)'], crosscheck=False, timeout=15)
+        c_.solver_order = ['z3-mbqi-short', 'z3-ematch', 'z3-default', 'z3-seed1']
+        reg.add(c_, callable_=False)
+    # ---- skipToNextLr from inside a logical record: everything above executed from the real bodies
+    reg.add(Contract(PR, 'PhysRecRead.skipLrBytes', inline=True))
+    c_ = Contract(
+        PR, 'PhysRecRead.skipToNextLr', {'self': RD}, ghost=G2,
+        requires=[LAY, LRE, CUR, '0 <= self._ldTell'], modifies=WALKMOD, returns=Int,
+        ensures=['result == old(%s)' % AVAIL,
+                 # end of file iff fewer than four bytes follow the logical record; otherwise the reader stands at the first data
+                 # byte of the first physical record of the NEXT logical record
+                 'self.isEOF == (len(%s) - old(lre[self.startPrPos]) < 4)' % D,
+                 'implies(not self.isEOF, %s and self.startPrPos == old(lre[self.startPrPos]) and self._ldIndex == 0 '
+                 'and self.startOfLr == self.startPrPos and self._ldTell == 0 and self._isLrStart)' % CUR],
+        canaries=['self.isEOF', 'not self.isEOF'], crosscheck=False, timeout=15)
+    c_.solver_order = ['z3-mbqi-short', 'z3-ematch', 'z3-default', 'z3-seed1']
+    reg.add(c_)
 
 
 def standins(tier, seed):
